@@ -147,14 +147,9 @@ pub fn judge(tree: &E) -> Verdict {
             if let Some(u) = an.unknown_symbols.iter().find(|s| !allowed(s)) {
                 return Verdict::Fail(format!("{tree:?}: emitted program uses the symbol {u}, which is not part of the runtime vocabulary (placeholder?)\n{}", c.text));
             }
-            let Some(body) = an.thunk.as_ref().and_then(|t| t.list()).and_then(|l| l.get(2)).cloned() else {
-                return Verdict::Fail(format!("no per-file thunk found\n{}", c.text));
-            };
-            let sk = if tree.has_action() { tree_skeleton(tree) } else { Sk::And(Box::new(tree_skeleton(tree)), Box::new(Sk::Leaf(None))) };
-            if let Err(e) = body_matches(&body, &sk) {
-                return Verdict::Fail(format!("{tree:?}: policy body is not structurally faithful to the expression: {e}\n{}", c.text));
-            }
-            Verdict::Pass { nt: tree.n_operators() >= 2, class: "supported: compiles, body faithful" }
+            // (what a supported expression is translated into is C02's business; here: it compiles,
+            // and nothing outside the runtime vocabulary - a placeholder - is left in the program)
+            Verdict::Pass { nt: tree.n_operators() >= 2, class: "supported: compiles, no placeholder" }
         }
     }
 }
@@ -289,7 +284,7 @@ pub fn run(ctx: &Ctx) -> Report {
     total.merge(rnd);
     Report {
         stats: total,
-        rule: "random trees built from the public constructors over the full vocabulary (node kinds the parser can return: tests, actions, operators, the positional option) with unsupported constructs at random positions, every unsupported construct alone and in fixed dead/negated/nested positions, and all-supported trees. Oracle: support partition written from ast.rs ('not supported in the final scheme output') -> compile is Err iff the tree contains an unsupported construct and the message contains that construct's variant name; for Ok the policy body's and/or/not skeleton equals the tree's, every leaf position holds a non-constant form unless the leaf is True/False, and no symbol outside the runtime vocabulary occurs. Non-trivial: unsupported construct not at the root / not the first leaf; or a supported tree with >=2 operators. Distinct: by tree.".into(),
+        rule: "random trees built from the public constructors over the full vocabulary (node kinds the parser can return: tests, actions, operators, the positional option) with unsupported constructs at random positions, every unsupported construct alone and in fixed dead/negated/nested positions, and all-supported trees. Oracle: support partition written from ast.rs ('not supported in the final scheme output') -> compile is Err iff the tree contains an unsupported construct and the message contains that construct's variant name; for Ok no symbol outside the runtime vocabulary (a placeholder) occurs in the program; what a supported expression is translated into is decided by C02. Non-trivial: unsupported construct not at the root / not the first leaf; or a supported tree with >=2 operators. Distinct: by tree.".into(),
         assumptions: vec!["Global/Precedence nodes are excluded: parse never returns them (C01, C13 check exactly that)".into()],
         exhaustive: false,
     }
